@@ -9,12 +9,15 @@ Implementation: the REAL classes `SeparationOutputHandler`, `BondLengthAndAngleO
                                         several `write` calls per handler instance; Fraction oracle on the implementation's files
     check_run_outputs(ctx, tr, files)   the files a recorded run wrote vs the model observables of the recorded sampled states
     run_output_files(tr, root)          helper: derive `files` for a trace of `harness/runtrace.py` from its recorded configuration
+    check_runs(ctx)                     self-contained: runs five shipped configurations (one per handler kind, + variants) with unique
+                                        output file names and applies `check_run_outputs` to every completed run
 
 Signatures emitted with `ctx.fail` (the implementation's files violate the statement, independent of the model):
     output:sep:count-per-file, output:sep:squared-separations-differ, output:sep:exception-on-valid-state,
     output:bond:lengths-differ, output:bond:angle-differs, output:bond:count, output:bond:exception-on-valid-state,
     output:oo:separations-differ, output:oo:count, output:oo:exception-on-valid-state,
     output:pol:vector-differs, output:pol:count, output:pol:exception-on-valid-state, output:file:header-missing,
+    output:file:missing-after-post_run, output:file:unparsable-line,
     output:run:<the same suffixes> for the files of recorded runs (`check_run_outputs`)
 `ctx.disagree` names: output.<kind>.init / .write / .files, output.vec.<fn>, output.run.<kind>.
 """
@@ -100,12 +103,19 @@ def parse_file(path):
             elif line == "# Polarization Vector":
                 out.append("C")
             else:
-                out.append(",".join(f2b(float(x)) for x in line.split("\t")))
+                try:
+                    out.append(",".join(f2b(float(x)) for x in line.split("\t")))
+                except ValueError:
+                    out.append("X" + line[:80].replace(";", ":").replace("|", ":"))      # not a line of floats
     return out
 
 
+def unparsable(files):
+    return [t for f in files if f is not None for t in f if t.startswith("X")]
+
+
 def file_values(tokens):
-    return [[b2f(b) for b in t.split(",")] for t in tokens if t not in ("H", "C")]
+    return [[b2f(b) for b in t.split(",")] for t in tokens if t not in ("H", "C") and not t.startswith("X")]
 
 
 def expected_paths(kind, filename, per_root):
@@ -587,6 +597,8 @@ def check(ctx, sessions=None):
                 ctx.fail("output:file:missing-after-post_run", case, "a file of the handler does not exist after post_run()")
             elif any(not f or f[0] != "H" for f in files):
                 ctx.fail("output:file:header-missing", case, "a file does not start with the run identification hash")
+            elif unparsable(files):
+                ctx.fail("output:file:unparsable-line", dict(case, line=unparsable(files)[0]), "a written line is not a line of floats")
             else:
                 judge(ctx, orc, kind, case, files, states, writes, dim, Ls, levels, per_root)
             shutil.rmtree(tmp, ignore_errors=True)
@@ -662,7 +674,7 @@ def first_difference(a, b):
         la, lb = x.split(";"), y.split(";")
         for n, (p, q) in enumerate(zip(la, lb)):
             if p != q:
-                sh = lambda t: t if t in ("H", "C", "MISSING") else [b2f(z).hex() for z in t.split(",")]
+                sh = lambda t: t if t in ("H", "C", "MISSING", "") or t.startswith("X") else [b2f(z).hex() for z in t.split(",")]
                 return f"file {k} line {n}: implementation {sh(p)} model {sh(q)}"
         if len(la) != len(lb):
             return f"file {k}: implementation {len(la)} lines, model {len(lb)} lines"
@@ -764,7 +776,10 @@ def check_run_outputs(ctx, tr, files=None, root=None):
             continue
         # independent oracle on the run's files (Fraction arithmetic on the recorded states)
         orc = Oracle(ctx, prefix="output:run")
-        if all(well_formed(st, dim, Ls, levels, per_root, kind) for st in states):
+        if unparsable(got):
+            ctx.fail("output:run:file:unparsable-line", dict(case, line=unparsable(got)[0], paths=spec["paths"]),
+                     "a written line is not a line of floats")
+        elif all(well_formed(st, dim, Ls, levels, per_root, kind) for st in states):
             vals = [[v for row in file_values(f) for v in row] for f in got]
             c2 = dict(case, paths=spec["paths"])
             if kind == "sep":
@@ -780,4 +795,104 @@ def check_run_outputs(ctx, tr, files=None, root=None):
         if want != have:
             ctx.disagree(f"output.run.{kind}", dict(case, paths=spec["paths"]), first_difference(have, want),
                          "(model observables of the recorded sampled states)")
+    return total
+
+
+# ------------------------------------------------------------------------------------------ self-contained run check
+_CFG = "config_files/2018_JCP_149_064113/"
+RUN_INIS = [_CFG + "dipoles/atom_factors.ini", _CFG + "water/single_molecule.ini", _CFG + "coulomb_atoms/power_bounded.ini",
+            _CFG + "water/coulomb_power_bounded_lj_inverted.ini", "config_files/hard_disk_dipoles/single_hard_disk_dipole.ini"]
+# end of run times (time units) that keep a run well below a second / a few seconds: (quick, thorough)
+RUN_T_END = {"atom_factors.ini": (14.0, 60.0), "single_molecule.ini": (14.0, 80.0), "power_bounded.ini": (14.0, 80.0),
+             "coulomb_power_bounded_lj_inverted.ini": (9.0, 30.0), "single_hard_disk_dipole.ini": (30.0, 200.0)}
+
+
+def _section_class(sec):
+    m = sec.replace(" ", "")
+    return m.split("(")[1].rstrip(")") if "(" in m else m
+
+
+def run_jobs_list(ctx):
+    """job list for `harness.runs.run_jobs`: the five shipped configurations that use the four observable output handlers (both
+    separation layouts), each job with its OWN output file name (pid + job index), a short end time, and varied sampling
+    (interval, `first_event_time_zero`); plus many-particle variants (more inter-object pairs per sample)"""
+    import configparser
+    from harness import runcommon
+    rng = ctx.rng
+    pid = os.getpid()
+    jobs = []
+
+    def add(ini, variant, extra=None, pool=None):
+        cp = configparser.ConfigParser()
+        assert cp.read(os.path.join(ctx.root, "jellyfysh", ini)), ini
+        k = len(jobs)
+        short = ini.split("/")[-1]
+        t_end = ctx.n(*RUN_T_END[short]) * rng.choice([0.5, 0.75, 1.0])
+        ov = {"FinalTimeEndOfRunEventHandler": {"end_of_run_time": t_end}}
+        for sec in cp.sections():
+            if _section_class(sec) in CLASS_KIND and cp.has_option(sec, "filename"):
+                d, b = os.path.split(cp.get(sec, "filename"))
+                ov[sec] = {"filename": os.path.join(d, f"OC{pid}j{k}_{b}")}          # never shared between two jobs
+            if cp.has_option(sec, "sampling_interval"):
+                base = float(cp.get(sec, "sampling_interval"))
+                zf0 = cp.get(sec, "first_event_time_zero", fallback="False").strip().lower() == "true"
+                if variant == "shipped":
+                    ov[sec] = {}
+                elif variant == "toggled":
+                    ov[sec] = {"first_event_time_zero": str(not zf0)}
+                else:
+                    ov[sec] = {"sampling_interval": rng.choice([0.1, 0.37, 1.0, round(base / 3, 5), 0.56789]),
+                               "first_event_time_zero": rng.choice(["True", "False"])}
+        for sec, kv in (extra or {}).items():
+            ov.setdefault(sec, {}).update(kv)
+        job = {"ini": ini, "seed": ctx.seed * 1000 + 900 + k, "max_legs": ctx.n(60000, 400000), "kind": "outcorr-" + variant,
+               "overrides": {s_: v for s_, v in ov.items() if v}, "light": True}
+        if pool:
+            job["pool"] = pool
+        jobs.append(job)
+
+    for n, ini in enumerate(RUN_INIS):
+        add(ini, "shipped" if n % 2 == 0 else "toggled")
+        for _ in range(ctx.n(2, 6)):
+            add(ini, "varied")
+    # more particles: several inter-object pairs per sample (and, for the dipoles, both files get several lines per sample)
+    for _ in range(ctx.n(1, 4)):
+        k = rng.randint(3, 6)
+        add(RUN_INIS[2], "varied", {"RandomInputHandler": {"number_of_root_nodes": k}, "Coulomb": {"number_event_handlers": k}})
+        k = rng.randint(3, 4)
+        add(RUN_INIS[0], "varied", {"RandomInputHandler": {"number_of_root_nodes": k}}, pool=k)
+    return runcommon.fix_pools(jobs, ctx.root)
+
+
+def check_runs(ctx):
+    """real runs -> the files they wrote vs the model observables of the sampled states recorded by `harness/runtrace.py`
+    (`check_run_outputs`), for every completed run of `run_jobs_list(ctx)`.  Returns the number of compared samples."""
+    from harness import runs
+    jobs = run_jobs_list(ctx)
+    trs = runs.run_jobs(ctx.root, jobs)
+    total = 0
+    for job, tr in zip(jobs, trs):
+        short = job["ini"].split("/")[-1]
+        if tr.get("end") != "EndOfRun":
+            # a run that did not reach `post_run` has unflushed `.tmp` files: nothing to compare (not a verdict)
+            ctx.count("outcorr-run-skipped:" + str(tr.get("end"))[:40])
+            ctx.notes.append(f"outcorr.check_runs: run of {short} ended with {str(tr.get('end'))[:80]}; not compared")
+            continue
+        files = run_output_files(tr, ctx.root)
+        if not files:
+            ctx.count("outcorr-run-without-observable-handler")
+            continue
+        n = check_run_outputs(ctx, tr, files)
+        total += n
+        ctx.traces += 1
+        ctx.evaluations += n
+        ctx.count("outcorr-runs"); ctx.count("outcorr-runs:" + job["kind"]); ctx.count("outcorr-run-samples", n)
+        for name, spec in files.items():
+            ctx.cls(("outcorr-run", short, spec["kind"]))
+            ctx.cls(("outcorr-run", short, spec["kind"], job["kind"], tr["meta"]["n_roots"] > 2))
+            for p in spec["paths"]:
+                for q in (p, p + ".tmp"):
+                    if os.path.exists(q):
+                        os.unlink(q)
+    ctx.count("outcorr-run-jobs", len(jobs))
     return total
